@@ -143,7 +143,19 @@ META = {
 
 
 def plan(tier):
-    H, K = (2, 2) if tier == "quick" else (3, 2)
-    return [Scenario("history", scen, params={"H": H, "K": K},
-                     cover=["hist-" + h for h in HISTORY] + ["probe-" + s.tag for s in PROBE],
-                     bounds={"history steps": H, "probe commands": K})]
+    cov = ["hist-" + h for h in HISTORY]
+    pc = ["probe-" + s.tag for s in PROBE]
+    if tier == "quick":
+        cfg = [("history-h2-k1", 2, 1), ("history-h1-k2", 1, 2)]
+    else:
+        cfg = [("history-h3-k1", 3, 1), ("history-h2-k2", 2, 2)]
+    out = []
+    for name, H, K in cfg:
+        SCENARIOS[name] = scen
+        out.append(Scenario(name, scen, params={"H": H, "K": K}, cover=cov + pc,
+                            bounds={"history steps": H, "probe commands": K}))
+    return out
+
+
+plan("quick")
+plan("thorough")
